@@ -1232,7 +1232,9 @@ class _SetAttribute:
     raises_if = {"UndefinedOperatorError": lambda s: AND(_name_is(s, "min", "max"), NOT(ET_IS(s.self, RATIONAL_X)))}
 
     def pre(s):
-        return {"domain": DOMAIN(s.self)}
+        # any element class but Set itself (sets of sets are outside the operator table; sets of types are inside: the
+        # comparison of two types is undefined)
+        return {"elements-are-not-sets": NOT(ET_IS(s.self, SET_X))}
 
     def post(s):
         return {"count": IMPLIES(_name_is(s, "count"), lambda: AND(is_rat(s.result), lambda: rv(s.result) == CARD(s.self))),
